@@ -8,7 +8,9 @@ TRUSTED = ["binascii.crc_hqx is modelled by the table-driven CRC of CPython's bi
 ASSUMPTIONS = ["hex strings are Python str; a non-ASCII or non-hex str is only required to raise",
                "the implementation is called in-process with PYTHONPATH=/repo/src"]
 RULE = ("hex spellings of byte strings: the regression corpus, every string of length 0..2 (all 65 793: every 16-bit value of the first CRC occurs), "
-        " every single-bit flip of the signed frames of tests/test_api_packet_crc_signing.py shapes, random strings "
+        " every single-bit flip of the signed frames of tests/test_api_packet_crc_signing.py shapes, strings that already end with "
+        "their own signature (signed one to three times), every packet template of the sources rendered with random fields and with "
+        "its length field blank / stamped / arbitrary, the magic followed by a sweep of length-field values, random strings "
         "up to 4 KiB in lower/upper/mixed case, and a malformed stream (odd length, non-hex, blanks, non-ASCII); "
         "non-trivial = distinct well-formed hex of at least one byte")
 REQUIREMENT = ("sign(p) = p ++ hex(le16(c) ++ le16(crc(le16(c) ++ 0x30*32))) with c = crc(unhex p), CRC-16/CCITT poly 0x1021 "
@@ -17,6 +19,28 @@ HEXCHARS = set("0123456789abcdefABCDEF")
 FRAMES = ["fef052000232a10000000000340001000000000000000000d8a5f36200000000000000000000f0fe1c" + "00" * 37,
           "fef0300002320103aabbccdd340001000000000000000000d8a5f36200000000000000000000f0fea1b2c300",
           "fef05d0002320102aabbccdd340001000000000000000000d8a5f36200000000000000000000f0fea1b2c3" + "00" * 36 + "0001060001" + "00" + "08070000"]
+
+def sign_spec_py(p):
+    """p signed by the Spec (through the extracted Spec/Sign.v); used only to build inputs"""
+    return lib.run_model([lib.req("sign_spec", p)])[0][3:]
+
+
+def template_texts(rnd):
+    import re
+    from aioswitcher.api import packets
+    out = []
+    for name in sorted(dir(packets)):
+        v = getattr(packets, name)
+        if not (name.isupper() and isinstance(v, str) and v.startswith("fef0")): continue
+        n = len(re.findall(r"\{\}", v))
+        for _ in range(3):
+            args = ["%08x" % rnd.randrange(2 ** 32), "%08x" % rnd.randrange(2 ** 32), "%06x" % rnd.randrange(2 ** 24)] + \
+                   [bytes(rnd.randrange(256) for _ in range(rnd.choice([1, 2, 4, 32]))).hex() for _ in range(8)]
+            try: t = v.format(*args[:max(n, 0)]) if n else v
+            except Exception: continue
+            if len(t) % 2 == 0: out.append(t)
+    return out
+
 
 def wellformed(p): return len(p) % 2 == 0 and all(c in HEXCHARS for c in p)
 def impl(p):
@@ -38,6 +62,18 @@ def cases(tier, rnd):
         s = bytes(rnd.randrange(256) for _ in range(rnd.choice([rnd.randrange(64), rnd.randrange(4096)]))).hex()
         k = rnd.random()
         cs.append(s.upper() if k < .2 else "".join(ch.upper() if rnd.random() < .5 else ch for ch in s) if k < .3 else s)
+    # strings that already end with their own signature (signing twice), to depth 3, from the shortest strings up
+    seeds = ["", "00", "fef0", "ff" * 7] + FRAMES + [bytes(rnd.randrange(256) for _ in range(rnd.randrange(1, 200))).hex() for _ in range(40)]
+    for q in seeds:
+        for _ in range(3):
+            q = sign_spec_py(q); cs.append(q); cs.append(q.upper())
+    # every packet template of the sources as it reaches the signer: holes filled, length field blank, stamped, or arbitrary
+    for t in template_texts(rnd):
+        cs.append(t)
+        for lf in ["0000", "0100", "ffff", "%04x" % (len(t) // 2 + 4), "%04x" % rnd.randrange(65536)]:
+            cs.append(t[:4] + lf + t[8:])
+    for lf in range(0, 65536, 257 if tier != "thorough" else 1):
+        cs.append("fef0%04x" % lf + bytes(rnd.randrange(256) for _ in range(rnd.randrange(0, 40))).hex())
     cs += ["f", "fe f0", " fef0", "fef0 ", "0x", "fe\n", "g0", "שש", "fe-0", "+f", "f" * 4097, "0" * 8191, "１２", "1_0", "fe\x00"]
     return cs
 
